@@ -121,13 +121,13 @@ func NewFGraph(body *ast.BlockStmt, info *types.Info) *FGraph {
 		t := fg.Nodes[tail[b]]
 		switch {
 		case len(b.Succs) == 0:
-			// return, fall off the end, or no-return call
-			to := fg.Exit
+			// return (go/cfg adds a synthetic return at the end of the body),
+			// no-return call, or a dead end (the fall-through of a select
+			// without default, `select {}`)
+			to := fg.Abort
 			if len(b.Nodes) > 0 {
-				if es, ok := b.Nodes[len(b.Nodes)-1].(*ast.ExprStmt); ok {
-					if call, ok := es.X.(*ast.CallExpr); ok && noReturnFuncs[calleeName(info, call)] {
-						to = fg.Abort
-					}
+				if _, ok := b.Nodes[len(b.Nodes)-1].(*ast.ReturnStmt); ok {
+					to = fg.Exit
 				}
 			}
 			t.Succ = append(t.Succ, FEdge{To: to})
